@@ -1375,8 +1375,15 @@ func TestVerif_C28_Verify(t *testing.T) {
 			tk += "/rekeyed"
 		}
 		mk := "none"
-		if len(muts) > 0 {
-			mk = strings.Join(muts, "+")
+		if len(muts) == 1 {
+			mk = muts[0]
+		} else if len(muts) > 1 {
+			// two mutations: base names only, to keep the histogram readable
+			var bs []string
+			for _, m := range muts {
+				bs = append(bs, strings.SplitN(strings.SplitN(m, ":", 2)[0], "+", 2)[0])
+			}
+			mk = strings.Join(bs, " & ")
 		}
 		vk.Labelf("%s | %s | %s", tk, mk, verdict)
 		vk.Labelf("proto=%s", w.cv)
